@@ -224,9 +224,28 @@ def rule_where_order(ctx):
     for qual in ("MatrixProductState.gate_with_auto_swap", "MatrixProductOperator.gate_sandwich_with_auto_swap"):
         f = ctx.prog.func("quimb.tensor.tn1d.core", qual)
         where = f"{f.module.relpath}:{f.lineno}"
+        # the two locals unpacked from the `where` parameter (whatever they are called)
+        pair = None
+        for a_ in ast.walk(f.node):
+            if isinstance(a_, ast.Assign) and isinstance(a_.targets[0], ast.Tuple) and len(a_.targets[0].elts) == 2 and isinstance(a_.value, ast.Name) and a_.value.id == "where" \
+                    and all(isinstance(e_, ast.Name) for e_ in a_.targets[0].elts):
+                pair = {e_.id for e_ in a_.targets[0].elts}
+        if pair is None:
+            r.skip(qual, "the two sites are not unpacked from `where`")
+            continue
         order_ifs = [x for x in ast.walk(f.node) if isinstance(x, ast.If) and isinstance(x.test, ast.Compare) and len(x.test.ops) == 1
-                     and isinstance(x.test.ops[0], (ast.Gt, ast.Lt)) and {src_of(x.test.left), src_of(x.test.comparators[0])} == {"i", "j"}]
-        targets = [x for x in ast.walk(f.node) if isinstance(x, ast.Assign) and any(isinstance(t, ast.Name) and t.id in ("final_gate_where", "final_where") for t in x.targets)]
+                     and isinstance(x.test.ops[0], (ast.Gt, ast.Lt)) and isinstance(x.test.left, ast.Name) and isinstance(x.test.comparators[0], ast.Name)
+                     and {x.test.left.id, x.test.comparators[0].id} == pair]
+        # orientation variables: locals (other than the two sites) assigned a 2-tuple built from the sites inside such a branch
+        ovars = set()
+        for o in order_ifs:
+            for st_ in o.body + o.orelse:
+                for a_ in ast.walk(st_):
+                    if isinstance(a_, ast.Assign) and isinstance(a_.value, ast.Tuple) and len(a_.value.elts) == 2 \
+                            and any(isinstance(y_, ast.Name) and y_.id in pair for y_ in ast.walk(a_.value)):
+                        ovars |= {t_.id for t_ in a_.targets if isinstance(t_, ast.Name) and t_.id not in pair}
+        targets = [x for x in ast.walk(f.node) if isinstance(x, ast.Assign) and any(isinstance(t, ast.Name) and t.id in ovars for t in x.targets)
+                   and not (isinstance(x.value, ast.Constant) and x.value.value is None)]
         if not targets:
             r.skip(qual, "no orientation variable found")
             continue
@@ -237,7 +256,7 @@ def rule_where_order(ctx):
         for c in ast.walk(f.node):
             if isinstance(c, ast.Call) and isinstance(c.func, ast.Attribute) and c.func.attr.rstrip("_") in ("gate_split", "gate_sandwich", "gate", "gate_inds"):
                 wv = next((k.value for k in c.keywords if k.arg == "where"), None)
-                if isinstance(wv, ast.Tuple) and len(wv.elts) == 2 and {src_of(e) for e in wv.elts} == {"i", "j"}:
+                if isinstance(wv, ast.Tuple) and len(wv.elts) == 2 and all(isinstance(e, ast.Name) for e in wv.elts) and {e.id for e in wv.elts} == pair:
                     inside = any(any(c is y for y in ast.walk(o)) for o in order_ifs)
                     if not inside:
                         r.bad(Finding("where-order", qual,
